@@ -269,7 +269,7 @@ def property_on_run(cfg, res, run):
                 return 'crash-other-file-changed'
     # a new run refuses to start while a journal exists - and leaves the directory alone
     if J in after:
-        if run['refuses'] is not True or not run['check_refuses']:
+        if run['refuses'] is not True or run['check_refuses'] is False:
             return 'journal-present-new-run-starts'
         if run['after_restart'] != after:
             return 'refusing-run-changed-directory'
@@ -630,7 +630,9 @@ def startup_terms(cases, results):
             return hx(bytes.fromhex(v)) if v else '[]'
         fs0 = '[' + '; '.join('(%s, %s)' % (names[fn], small(v)) for fn, v in sorted(before.items())) + ']'
         defs.append('Definition s0 : fs := %s.' % fs0)
-        exp = 'true' if res['check_refuses'] else 'false'
+        # (check_refuses None: the start-up check could not be called on its own; the constructor's verdict stands in for it)
+        chk = res['refuses'] is True if res['check_refuses'] is None else res['check_refuses']
+        exp = 'true' if chk else 'false'
         t1 = 'Bool.eqb (match new_recorder_check pre s0 with StartRefused => true | StartOk => false end) %s' % exp
         # the constructor: refusal, or (truncate unless appending) + warcinfo append to the file the options name
         refused = res['refuses'] is True
@@ -668,14 +670,14 @@ def startup_terms(cases, results):
         # property on the implementation: a journal of a file the prefix can name => refusal, directory untouched
         jnames = [c['prefix'] + sfx for sfx in SUFFIXES]
         has = any(n in before for n in jnames)
-        if has and (res['refuses'] is not True or not res['check_refuses']):
+        if has and (res['refuses'] is not True or res['check_refuses'] is False):
             viol.append({'why': 'journal-present-new-run-starts', 'target': 'startup', 'case': c,
                          'impl': {'refuses': res['refuses']}})
         elif res['refuses'] is True and after != before:
             viol.append({'why': 'refusing-run-changed-directory', 'target': 'startup', 'case': c, 'impl': {}})
         elif res['refuses'] not in (True, False):
             viol.append({'why': 'unexpected-exception', 'target': 'startup', 'case': c, 'impl': {'refuses': res['refuses']}})
-        elif res['refuses'] != res['check_refuses']:
+        elif res['check_refuses'] is not None and res['refuses'] != res['check_refuses']:
             viol.append({'why': 'constructor-and-check-disagree', 'target': 'startup', 'case': c, 'impl': {}})
     return items, viol
 
